@@ -25,6 +25,7 @@ RULE += ' Round 8: non-dyadic sampling rates (10, 1000, 30000 ...) wherever time
 RULE += ' Round 9: id lists that are exactly 0..n-1 with the inner ids permuted; the cluster list as a tuple.'
 RULE += ' Round 10: 3000-4500 spikes on each of three consecutive samples (exact pair counts by combinatorics).'
 RULE += ' Round 11: regular trains of 65536 / 65537 / 65538 / 131073 spikes (pair counts per shift around multiples of 65536).'
+RULE += ' Round 13: windows of (2h + 1.5) bins.'
 EXHAUSTIVE = {'quick': True, 'thorough': True}
 EXHAUSTIVE_SCOPE = {'quick': 'trains L<=5 on grid 0..4 (see rule); random long trains are sampled',
                     'thorough': 'trains L<=7 on grid 0..6 (see rule); random long trains are sampled'}
